@@ -578,6 +578,7 @@ func TestVerifC02BuildFromMap(t *testing.T) {
 // ---- outputs of Fragment / ReassembleFragments ----
 
 type c02FragCase struct {
+	MTUKind string `json:"mtukind,omitempty"` // how MTU is derived from the encoding (see c09MTU); empty = MTU is absolute
 	Spec vk.BundleSpec `json:"spec"`
 	MTU  int           `json:"mtu"`
 }
@@ -587,10 +588,35 @@ func TestVerifC02Fragments(t *testing.T) {
 	u := vk.Unit{Property: "C02", Name: "c02.fragments", Quick: 2500, Thorough: 120000,
 		Rule: "generated valid bundles x MTU: every bundle returned by Fragment, and the result of ReassembleFragments on them, must be well-formed (independent validator) and accepted by the parser; non-trivial = >= 2 fragments; distinct by case hash"}
 	vk.Check(t, u, func(t *rapid.T) c02FragCase {
-		s := vk.GenBundle(vk.GenOpts{NoFragment: true, MaxPayload: 3000, NoMultiMap: true, PrimaryCRC: true}).Draw(t, "bundle")
-		return c02FragCase{Spec: s, MTU: rapid.IntRange(1, 1200).Draw(t, "mtu")}
+		o := vk.GenOpts{NoFragment: true, MaxPayload: 3000, NoMultiMap: true, PrimaryCRC: true}
+		if rapid.IntRange(0, 9).Draw(t, "nonofrag") > 0 {
+			o.NoNoFragment = true
+		}
+		s := vk.GenBundle(o).Draw(t, "bundle")
+		if p := s.PayloadSpec(); p.PayLen < 40 && rapid.IntRange(0, 4).Draw(t, "grow") > 0 {
+			p.PayLen += 40 + rapid.IntRange(0, 900).Draw(t, "by")
+		}
+		// clock-less bundles can only be fragmented if their age block is replicated
+		for i := range s.Blocks {
+			if s.Blocks[i].Type == vk.BTAge && rapid.IntRange(0, 3).Draw(t, "agerep") > 0 {
+				s.Blocks[i].Flags |= vk.BFReplicate
+			}
+		}
+		// the limit is drawn relative to the encoding (as in C09), so that most cases really fragment
+		return c02FragCase{Spec: s, MTUKind: rapid.SampledFrom([]string{"payload/", "payload/", "overhead+", "len-", "abs", "len+"}).Draw(t, "mtukind"),
+			MTU: rapid.IntRange(1, 5000).Draw(t, "mtu")}
 	}, func(c *vk.Ctx, cs c02FragCase) {
 		b := vfBundle(&cs.Spec, vfNowDtn())
+		mtu := cs.MTU
+		if cs.MTUKind != "" {
+			enc, err := vfWrite(&b)
+			if err != nil {
+				c.Failf("c02.harness", "serialise: %v", err)
+			}
+			k := c09Case{MTUKind: cs.MTUKind, MTUArg: cs.MTU}
+			mtu = c09MTU(&k, len(enc), cs.Spec.PayloadSpec().PayLen)
+		}
+		cs.MTU = mtu
 		frags, err := b.Fragment(cs.MTU)
 		if err != nil {
 			c.Class("Fragment error")
